@@ -357,6 +357,9 @@ class _LocalDatePatternParser(_IPatternParser[LocalDate]):
 
             if not used_fields.has_any(_PatternFields.ERA):
                 self.__era = self._template_value.era
+                if self.__era not in self._calendar.eras():
+                    # The calendar came from the text (calendar field) and has no such era: nothing to infer from.
+                    return ParseResult._inconsistent_values(text, "y", "c", eventual_result_type)
 
             assert self.__era is not None
 
